@@ -156,6 +156,7 @@ func run(c Case) *hx.Outcome {
 	}
 	// the port one listener will find taken
 	var squatter net.Listener
+	var knownSMTP, knownPOP3 string
 	if c.Fail != "" {
 		squatter, err = net.Listen("tcp", "127.0.0.1:0")
 		if err != nil {
@@ -170,6 +171,17 @@ func run(c Case) *hx.Outcome {
 			conf.POP3.Addr = squatter.Addr().String()
 		case "web":
 			conf.Web.Addr = squatter.Addr().String()
+		}
+		// The listeners that are to come up get ports chosen here, so that they can be probed from
+		// outside after the failure: their readiness is not signalled in this situation, and the
+		// servers' fields must not be read without it.
+		if c.Fail != "smtp" {
+			conf.SMTP.Addr = freePort()
+			knownSMTP = conf.SMTP.Addr
+		}
+		if c.Fail != "pop3" {
+			conf.POP3.Addr = freePort()
+			knownPOP3 = conf.POP3.Addr
 		}
 	}
 	web.Router = mux.NewRouter().UseEncodedPath() // as the package initialises it
@@ -204,6 +216,7 @@ func run(c Case) *hx.Outcome {
 		o.Failf(pid+":"+key, "[fail=%q retention=%ds %s early=%v smtp=%q pop3=%q] %s", c.Fail, c.Retention, c.Backend, c.Early, c.SMTP, c.POP3, fmt.Sprintf(f, a...))
 	}
 	isReady := false
+	abandoned := false
 	if !c.Early {
 		if c.Fail == "" {
 			select {
@@ -221,6 +234,9 @@ func run(c Case) *hx.Outcome {
 			case err := <-svc.Notify():
 				if err == nil {
 					fail("notify-nil", "the %s port is taken; Notify delivered a nil error", c.Fail)
+				} else if _, port, _ := net.SplitHostPort(squatter.Addr().String()); !strings.Contains(err.Error(), port) {
+					// another listener lost its (pre-chosen) port to somebody else in the meantime
+					abandoned = true
 				}
 			case <-time.After(15 * time.Second):
 				fail("failure-not-notified", "the %s port is taken, yet no failure was notified within 15 s", c.Fail)
@@ -229,24 +245,25 @@ func run(c Case) *hx.Outcome {
 	}
 	var smtpAddr, pop3Addr string
 	if !isReady && !c.Early && c.Fail != "" && !o.Failed() {
-		// one service failed; the others bind within moments. Their addresses are needed to see
-		// that they stop accepting too (this package runs without the race detector; a listener
-		// not bound yet simply is not probed)
-		for i := 0; i < 100 && (smtpAddr == "" || pop3Addr == ""); i++ {
-			if c.Fail != "smtp" { // (the accessor must not be asked about a listener that failed to bind)
-				if a := svc.SMTPServer.VerifAddr(); a != nil {
-					smtpAddr = a.String()
+		// one service failed; the others bind within moments: wait (from outside) until they greet
+		up := func(addr string) string {
+			for i := 0; i < 100; i++ {
+				if d, err := dial(addr); err == nil {
+					l, _ := d.line(time.Second)
+					_ = d.c.Close()
+					if strings.Contains(l, domain) {
+						return addr
+					}
 				}
+				time.Sleep(10 * time.Millisecond)
 			}
-			if c.Fail != "pop3" {
-				if a := svc.POP3Server.VerifAddr(); a != nil {
-					pop3Addr = a.String()
-				}
-			}
-			if (c.Fail == "smtp" || smtpAddr != "") && (c.Fail == "pop3" || pop3Addr != "") {
-				break
-			}
-			time.Sleep(5 * time.Millisecond)
+			return "" // never came up (its port may have been taken in the meantime): not probed
+		}
+		if knownSMTP != "" {
+			smtpAddr = up(knownSMTP)
+		}
+		if knownPOP3 != "" {
+			pop3Addr = up(knownPOP3)
 		}
 	}
 	var sc, pc *cl
@@ -303,7 +320,10 @@ func run(c Case) *hx.Outcome {
 			}
 		}
 	}
-	if o.Failed() {
+	if o.Failed() || abandoned {
+		if abandoned {
+			o.Class("abandoned: a pre-chosen port was taken by another process")
+		}
 		cancel()
 		waitWebDown()
 		return o
@@ -473,6 +493,16 @@ func run(c Case) *hx.Outcome {
 	}
 	o.NonTrivial = c.Fail != "" || sc != nil || pc != nil
 	return o
+}
+
+// freePort returns a loopback address that was free a moment ago.
+func freePort() string {
+	l, err := net.Listen("tcp", "127.0.0.1:0")
+	if err != nil {
+		return "127.0.0.1:0"
+	}
+	defer l.Close()
+	return l.Addr().String()
 }
 
 // waitWebDown lets the web server of this assembly finish with its (package-global)
